@@ -270,7 +270,11 @@ def label(rng, special=True):
 
 
 def zoo_piece(rng, quotes=True, tags=True, special=True):
-    k = rng.below(13)
+    k = rng.below(15)
+    if k == 13:
+        return comb(rng)
+    if k == 14:
+        return tree(rng)[0]
     if k == 0:
         inner = []
         for _ in range(rng.below(3)):
@@ -355,6 +359,72 @@ def zoo(rng, legend=True, quotes=True, tags=True, special=True, crlf=False):
         art = art.replace("{", "(").replace("}", ")")
     if not quotes:
         art = art.replace('"', "'")
+    if special and rng.chance(1, 25):
+        art = rng.choice(["\ufeff", "\u200b", "\ufeff\n"]) + art
     if crlf:
         art = art.replace("\r", "").replace("\n", "\r\n")
     return art
+
+
+def comb(rng, below=False):
+    """a ruler / comb / bar chart: a base line of `+` and `-` with vertical strokes of different heights standing on it
+    (many strokes that start above the line that joins them: the grouping needs one pass per stroke)"""
+    n = rng.range(3, 10)
+    kind = rng.below(3)
+    if kind == 0:
+        hs = [rng.range(1, 3) for _ in range(n)]
+    elif kind == 1:
+        hs = [1 + i * rng.range(1, 2) // 1 for i in range(n)]            # growing sticks
+    else:
+        hs = [rng.choice([2, 2, 2, 1]) for _ in range(n)]
+        hs[rng.below(min(3, n))] = 1                                       # one of the first ticks is shorter
+    H = max(hs)
+    step = rng.choice([2, 2, 3])
+    rows = []
+    for r in range(H):
+        rows.append("".join(("|" if hs[i] >= H - r else " ") + " " * (step - 1) for i in range(n)).rstrip())
+    rows.append(("+" + "-" * (step - 1)) * (n - 1) + "+")
+    if below or rng.chance(1, 5):
+        rows.append("".join(("|" if rng.chance(1, 2) else " ") + " " * (step - 1) for i in range(n)).rstrip())
+    return "\n".join(rows)
+
+
+def tree(rng):
+    """a trunk with branches leaving it at several rows, some through a rounded elbow, ending in arrow heads, bullets
+    or labels; returns (drawing, number of arrow heads)"""
+    H = rng.range(4, 9)
+    rows = ["|"] * H
+    arrows = 0
+    used = set()
+    for _ in range(rng.range(1, 3)):
+        r = rng.range(0, H - 2)
+        if r in used or r + 1 in used:
+            continue
+        used.add(r)
+        k = rng.below(4)
+        ln = "-" * rng.range(2, 5)
+        if k == 0:
+            rows[r] = "+" + ln + " a"
+        elif k == 1:
+            rows[r] = "+" + ln + ">"
+            arrows += 1
+        elif k == 2 and r + 1 < H - 1:
+            rows[r] = "| ." + ln + rng.choice([" a", ">"])
+            arrows += rows[r].endswith(">")
+            rows[r + 1] = "|-'"
+            used.add(r + 1)
+        else:
+            rows[r] = "|" + ln + rng.choice(["*", "o", ""])
+    end = rng.below(4)
+    if end == 0:
+        rows.append("v")
+        arrows += 1
+    elif end == 1:
+        rows.append("'" + "-" * rng.range(2, 5) + "> b")
+        arrows += 1
+    elif end == 2:
+        rows.append("V")
+        arrows += 1
+    else:
+        rows.append("+--")
+    return "\n".join(rows), arrows
